@@ -165,5 +165,18 @@ PROPS["C20"] = {
     "assumptions": ["calls do not share cue lists, readers or writers"],
 }
 
+PROPS["C06"] = {
+    "level_text": "Lean model of the teletext reader from the demultiplexer's data upward (teletextPID, the data loop of ReadFromTeletext, process / parseDataUnit / parsePacket / parsePacketHeader / parsePacketData / parsePacket28And29, updateCharset over character tables regenerated from the running package on every run, teletextPage.parse, parseTeletextRow / appendTeletextLineItem) plus an independent decoder written from EN 300 472 / ETS 300 706 (Spec.Teletext.decode: own Hamming 8/4 and odd-parity coders, page-instance automaton, spacing attributes, national option positions). Machine-checked for all inputs: every Hamming 8/4 codeword of the independent encoder is decoded to its data bits by the library table, also with any single bit inverted; odd-parity characters are stored as themselves and with any single bit inverted as an invalid character that yields no text and leaves the row state unchanged; national option positions in range and equal to the thirteen of the standard; every entry of teletextCharsets has a G0 set and valid rows (96 / 13); for every designation the package knows the patched table of updateCharset equals the specification's direct look-up at every code; the row text law (text before the start box contributes nothing, boxed characters form one trimmed run); immunity of the page buffer against non-subtitle / short / wrongly framed data units, stuffing, non-EBU payloads, packets of other magazines, packets received while no page is open, headers of other pages; a header of the selected page closes the open instance at its time and opens a new one. The whole-stream clauses (one cue per non-empty instance of the selected or auto-detected page on the given or auto-detected PID, start/end = presentation times relative to the first one, rows in row order, runs split at colour and size codes) are decided on every run by teletext.read (real transport streams built with the astits muxer and the harness' own teletext packet encoder from a ground-truth page schedule x multiplexing choices, plus damaged streams) and teletext.pes (PES level, byte-level damage): model vs implementation, with the independent decoder and the schedule's ground truth evaluated on every case.",
+    "level_note": "Partial: the whole-stream statement is not proved in Lean (correspondence + independent decoder + ground truth on every generated case); go-astits demultiplexing is a contract (the model runs on the DemuxerData sequence the real demuxer delivered, recorded by the harness with the same call sequence as the reader); X/28 and M/29 triplets are taken in the library's raw convention (no Hamming 24/18 decoding, known finding). Pinned defects repaired by fix: commits: D18 as fix-1 (nil dereference on first X/28 / M/29), fix-2 (index panics on short payloads / data units / packets), fix-3 (nil DemuxerData); new: fix-4 (parity failure read as the 'alpha black' code), fix-5 (attribute codes after the end box restyle the boxed text), fix-6 (hexadecimal page numbers mistaken for decimal pages), fix-7 (size attributes compared by pointer: spurious run splits losing blanks), fix-8 (serial mode: header of another magazine with the same page number did not end the page). Known findings: known-1 (triplets not Hamming 24/18 decoded), known-2 (a row sent twice in an instance is returned twice), known-3 (go-astits v1.8.0 panics on a corrupted PES header; compared as a contract).",
+    "technique": "Lean 4 proof of the component laws (finite table laws by kernel evaluation, row / packet laws by induction and case analysis) + differential correspondence with an independent Lean decoder and generator ground truth as oracles",
+    "props": ["Astisub.Props.C06"],
+    "streams": [{"name": "teletext.read"}, {"name": "teletext.pes", "needs_hooks": True}, {"name": "teletext.row", "needs_hooks": True},
+                {"name": "teletext.charset", "needs_hooks": True}, {"name": "teletext.lib", "needs_hooks": True}],
+    "trust": ["model: Teletext.* hand-written from teletext.go; go-astits (TS/PES/PSI demultiplexing, PTS arithmetic) is a contract recorded per case; astikit's Hamming 8/4 and parity tables and the package's character tables are regenerated from the running package (bin/gen_tables) and compared on all 256 bytes by teletext.lib",
+              "the character tables themselves (which glyph sits at which code) are taken from the package; only their shape, the ASCII part of Latin G0 and the selection rule are checked"],
+    "assumptions": ["page option >= 0; presentation times as delivered by go-astits (33-bit PTS, no wrap-around handling)",
+                    "Spec class: error-free Hamming-protected bytes, 44-byte data units, each row at most once per page instance, consistent character set designations"],
+}
+
 NOT_APPLICABLE = {p: "not built yet in this session (work in progress; see DESIGN.md section 11 for the build order)" for p in
-                  ["C03","C05","C06","C07","C08"]}
+                  ["C03","C05","C07","C08"]}
